@@ -123,6 +123,27 @@ let cases = ref 0 and modelled = ref 0 and parse_failed = ref 0 and skipped_long
 let max_model_len = 60000
 let slowest = ref 0.0 and slowest_case = ref ""
 
+(* ---- membership in the registered exponential class, decided by the model of the unmodified algorithm *)
+exception Model_guard
+let with_guard (secs : float) (f : unit -> 'a) : 'a option =
+  let old = Sys.signal Sys.sigalrm (Sys.Signal_handle (fun _ -> raise Model_guard)) in
+  let stop () = ignore (Unix.setitimer Unix.ITIMER_REAL { Unix.it_interval = 0.0; Unix.it_value = 0.0 }); Sys.set_signal Sys.sigalrm old in
+  ignore (Unix.setitimer Unix.ITIMER_REAL { Unix.it_interval = 0.0; Unix.it_value = secs });
+  match f () with
+  | r -> stop (); Some r
+  | exception Model_guard -> stop (); None
+  | exception Stack_overflow -> stop (); None
+  | exception Out_of_memory -> stop (); None
+let rec nat_upto (n : nat) (cap : int) : int = let rec go n acc = if acc >= cap then acc else match n with O -> acc | S m -> go m (acc + 1) in go n 0
+let judged_by_model kind = has_prefix "lad" kind || has_prefix "esc-" kind
+let is_time_problem msg = has_prefix "took " msg || has_prefix "no answer" msg || has_prefix "worker process died" msg
+let outside_marker = "outside C09-validator-exponential"
+let cheap_steps = 100000          (* validator steps of the model below which a text is cheap for the unmodified algorithm *)
+let cheap_model_s = 0.5           (* ... and the whole model (reader, validator, optimizer passes) answers within this time *)
+let model_guard_s = 1.5
+let verdicts : (string, string) Hashtbl.t = Hashtbl.create 64
+let judged_outside = ref 0 and judged_known = ref 0
+
 let () =
   let fl = flags_of (if Array.length Sys.argv > 1 then Sys.argv.(1) else "00000000") in
   let lrskip = Array.length Sys.argv > 2 && Sys.argv.(2) = "lrskip" in
@@ -132,7 +153,10 @@ let () =
       builtins := List.map to_str (String.split_on_char ',' (String.sub line 10 (String.length line - 10)))
     else if String.length line > 0 && line.[0] = '#' then print_endline line
     else match split_tab line with
-    | ["CONTRACT"; case; msg] -> report "spec" case msg "never panics or aborts, bounded time, every error located and renderable"
+    | ["CONTRACT"; case; msg] ->
+      (* for the judged kinds the case line (read before its CONTRACT lines) left the verdict of the model on a slow text *)
+      let v = if is_time_problem msg then (try Hashtbl.find verdicts case with Not_found -> "") else "" in
+      report "spec" case (msg ^ v) "never panics or aborts, bounded time, every error located and renderable"
     | [case; cls; errs; forest; extras] ->
       incr cases;
       if forest = "-" then incr parse_failed
@@ -140,7 +164,34 @@ let () =
         let text_s = unesc (match String.index_opt case '|' with Some i -> String.sub case (i + 1) (String.length case - i - 1) | None -> case) in
         let kind = (match String.index_opt case '|' with Some i -> String.sub case 0 i | None -> "") in
         let expo_n = if has_prefix "expo-" kind then (try int_of_string (List.nth (String.split_on_char '-' kind) 2) with _ -> 99) else 0 in
-        if String.length text_s > max_model_len || expo_n > 14 then incr skipped_long
+        if judged_by_model kind && (cls = "TIMEOUT" || cls = "CRASH") then begin
+          (* the real front end was slow / did not answer on a text of a family that may belong to the registered exponential class:
+             the model of the UNMODIFIED algorithm says how much work the text is (guarded: it is exponential where the code is) *)
+          let t0 = Unix.gettimeofday () in
+          let verdict = with_guard model_guard_s (fun () ->
+            let text = to_str text_s in
+            let f = parse_forest forest in
+            let fuel = default_fuel text f in
+            let steps = (match consume_rules_with_spans fl text fuel f with
+                         | ODone rules -> (match validate_steps rules fuel fl.fix_lr fl.fix_tag !builtins fl.extras with Some st -> nat_upto st (cheap_steps + 1) | None -> 0)
+                         | _ -> 0) in
+            let m = frontend fl !builtins fuel text f in
+            let mcls = (match m with FRules _ -> "rules" | FErrors _ -> "errors" | FPanic -> "PANIC" | FFuel -> "FUEL") in
+            (steps, mcls)) in
+          let dt = Unix.gettimeofday () -. t0 in
+          (match verdict with
+           | Some (steps, mcls) when steps <= cheap_steps && dt <= cheap_model_s && (mcls = "rules" || mcls = "errors") ->
+             incr judged_outside;
+             Hashtbl.replace verdicts case (Printf.sprintf " [model of the unmodified front end: %d validator steps, answer `%s` after %.0f ms: %s]" steps mcls (dt *. 1000.) outside_marker)
+           | Some (steps, mcls) ->
+             incr judged_known;
+             Hashtbl.replace verdicts case (Printf.sprintf " [model of the unmodified front end: %s validator steps, `%s` after %.0f ms: may belong to C09-validator-exponential]"
+                                              (if steps > cheap_steps then Printf.sprintf "> %d" cheap_steps else string_of_int steps) mcls (dt *. 1000.))
+           | None ->
+             incr judged_known;
+             Hashtbl.replace verdicts case (Printf.sprintf " [model of the unmodified front end: no answer within %.1f s: may belong to C09-validator-exponential]" model_guard_s))
+        end
+        else if String.length text_s > max_model_len || expo_n > 14 then incr skipped_long
         else begin
           incr modelled;
           let t0 = Unix.gettimeofday () in
@@ -182,6 +233,7 @@ let () =
         end
       end
     | _ -> ());
+  Printf.printf "#JUDGED\tslow_judged_outside_known_class=%d\tslow_left_to_known_class=%d\n" !judged_outside !judged_known;
   Printf.printf "#MODELSLOWEST\t%.2fs\t%s\n" !slowest !slowest_case;
   Printf.printf "#RUNNER\tcases=%d\tmismatches=%d\tmodelled=%d\tparse_failed=%d\tskipped_long=%d\tshape_checked=%d\n"
     !cases !mismatches !modelled !parse_failed !skipped_long !shape_checked
